@@ -41,11 +41,15 @@ pub struct TestSource<'a> {
     pub fill_empty_at_end: bool,
     pub scratch: Vec<u8>,
     pub scratch_i: Vec<i32>,
+    /// 0 = every read delivers a full block (except the last). p > 0 = the input arrives in packets of
+    /// `p` inter-channel samples and a read never crosses a packet boundary (short reads in mid-stream;
+    /// the `Source` documentation does not forbid them). Used only by the mode-differential checks.
+    pub packet: usize,
 }
 
 impl<'a> TestSource<'a> {
     pub fn new(samples: &'a [i32], channels: usize, bps: usize, rate: usize, kind: SrcKind) -> Self {
-        Self { samples, channels, bps, rate, kind, pos: 0, reads: 0, faults: vec![], fill_empty_at_end: true, scratch: vec![], scratch_i: vec![] }
+        Self { samples, channels, bps, rate, kind, pos: 0, reads: 0, faults: vec![], fill_empty_at_end: true, scratch: vec![], scratch_i: vec![], packet: 0 }
     }
     pub fn with_faults(mut self, f: Vec<Fault>) -> Self {
         self.faults = f;
@@ -71,7 +75,12 @@ impl<'a> Source for TestSource<'a> {
         }
         let ch = self.channels.max(1);
         let begin = self.pos.min(self.samples.len());
-        let end = (self.pos + block_size * ch).min(self.samples.len());
+        let mut want = block_size;
+        if self.packet > 0 {
+            let t = begin / ch;
+            want = want.min(self.packet - t % self.packet);
+        }
+        let end = (self.pos + want * ch).min(self.samples.len());
         let n = (end - begin) / ch;
         if n == 0 && !self.fill_empty_at_end {
             return Ok(0);
@@ -103,6 +112,20 @@ impl<'a> Source for TestSource<'a> {
     }
 }
 
+/// Number of non-empty reads (= frames) a `TestSource` with packet size `packet` delivers.
+pub fn frames_of(len: usize, block: usize, packet: usize) -> usize {
+    if packet == 0 {
+        return (len + block - 1) / block;
+    }
+    let (mut t, mut n) = (0usize, 0usize);
+    while t < len {
+        let want = block.min(packet - t % packet).min(len - t);
+        t += want;
+        n += 1;
+    }
+    n
+}
+
 pub fn verified(cfg: &CfgSpec) -> Result<Verified<config::Encoder>, String> {
     cfg.to_encoder().into_verified().map_err(|(_, e)| format!("{e}"))
 }
@@ -125,7 +148,14 @@ pub fn encode_stream_eoi(cfg: &Verified<config::Encoder>, samples: &[i32], chann
 
 /// Frame-level assembly as documented: FrameBuf + Context + encode_fixed_size_frame + add_frame.
 pub fn encode_by_frames(cfg: &Verified<config::Encoder>, samples: &[i32], channels: usize, bps: usize, rate: usize, block: usize, kind: SrcKind) -> Result<(Stream, Vec<Frame>), String> {
+    encode_by_frames_packet(cfg, samples, channels, bps, rate, block, kind, 0)
+}
+
+/// Same, from a source that delivers packets (short reads in mid-stream).
+#[allow(clippy::too_many_arguments)]
+pub fn encode_by_frames_packet(cfg: &Verified<config::Encoder>, samples: &[i32], channels: usize, bps: usize, rate: usize, block: usize, kind: SrcKind, packet: usize) -> Result<(Stream, Vec<Frame>), String> {
     let mut src = TestSource::new(samples, channels, bps, rate, if kind == SrcKind::Mem { SrcKind::Int } else { kind });
+    src.packet = packet;
     let mut stream = Stream::new(rate, channels, bps).map_err(|e| format!("{e:?}"))?;
     let mut fb = FrameBuf::with_size(channels, block).map_err(|e| format!("{e:?}"))?;
     let mut ctx = Context::new(bps, channels);
